@@ -29,6 +29,39 @@ asyncssh = import_asyncssh()
 from asyncssh.encryption import get_encryption_algs      # noqa: E402
 from asyncssh.mac import get_mac_algs                    # noqa: E402
 
+import asyncssh.mac as _macmod                           # noqa: E402
+
+# Contract on the real tag check, active during every execution of this
+# module: a tag is accepted only if it has the algorithm's full length and
+# equals what sign() produces for the same sequence number and packet.
+_MAC_CALLS = {'n': 0, 'short': 0, 'bad': []}
+
+
+def _install_mac_contract():
+    for cls in (_macmod._HMAC, _macmod._UMAC):
+        orig = cls.verify
+        if getattr(orig, '_vf_contract', False):
+            continue
+
+        def verify(self, seq, packet, sig, _orig=orig):
+            ok = _orig(self, seq, packet, sig)
+            _MAC_CALLS['n'] += 1
+            if len(sig) != self._hash_size:
+                _MAC_CALLS['short'] += 1
+            if ok and (len(sig) != self._hash_size or
+                       bytes(sig) != bytes(self.sign(seq, packet))):
+                if len(_MAC_CALLS['bad']) < 4:
+                    _MAC_CALLS['bad'].append(
+                        f'{type(self).__name__}.verify accepted a '
+                        f'{len(sig)}-byte tag (algorithm tag size '
+                        f'{self._hash_size}) for a {len(packet)}-byte packet')
+            return ok
+        verify._vf_contract = True
+        cls.verify = verify
+
+
+_install_mac_contract()
+
 ID = 'C01'
 LEVEL = 'fault_enumeration'
 RULE = ('fault space = (cipher, MAC, compression) x direction x record index '
@@ -106,6 +139,37 @@ def gen_cases(tier, seed):
                       'aead': False, 'cmp': 'none', 'dir': d, 'index': j,
                       'op': list(op), 'chunk': 'all', 'big': False,
                       'cseed': rng.randrange(1 << 30)})
+    # the length field rewritten to values below one cipher block (it is sent
+    # in the clear with the encrypt-then-MAC algorithms): the receiver then
+    # slices body and tag out of whatever is buffered
+    etm = [m for m in macs if m.endswith('-etm@openssh.com')]
+    for k, m in enumerate(etm if tier != 'quick' else etm[::2] + etm[1:2]):
+        for e in ('aes128-ctr', 'aes256-cbc'):
+            for d in (C2S, S2C):
+                for v in (0, 1, 4, 11, 12, 13):
+                    cases.append({'enc': e, 'mac': m, 'aead': False,
+                                  'cmp': 'none', 'dir': d,
+                                  'index': [3, 8, 15][(k + v) % 3],
+                                  'op': ['setlen', v],
+                                  'chunk': ['all', 'record'][v % 2],
+                                  'big': v in (0, 12), 'cseed': 1000 + v})
+
+    # removal of the first encrypted record, balanced by a cleartext IGNORE /
+    # DEBUG slipped in before NEWKEYS (prefix truncation): only the sequence
+    # number restart of strict key exchange - which two asyncssh endpoints
+    # must negotiate - makes this detectable with counter-nonce ciphers
+    for e, m, a in (('chacha20-poly1305@openssh.com', 'hmac-sha1', True),
+                    ('aes128-gcm@openssh.com', 'hmac-sha1', True),
+                    ('aes128-ctr', 'hmac-sha2-256-etm@openssh.com', False),
+                    ('aes256-cbc', 'hmac-sha2-512-etm@openssh.com', False)):
+        for d in (C2S, S2C):
+            for inj in (2, 4):
+                for ch in ('all', 'record'):
+                    cases.append({'kind': 'truncation', 'enc': e, 'mac': m,
+                                  'aead': a, 'cmp': 'none', 'dir': d,
+                                  'index': 0, 'op': ['prefix_truncation', inj],
+                                  'chunk': ch, 'big': False, 'cseed': 77})
+
     # how the receiving application consumes: callbacks with reading paused
     # (a backlog sits in the channel when the alteration is detected) or the
     # stream API with nobody blocked in read() at that moment
@@ -256,6 +320,9 @@ class Tamper:
             b[off] ^= 1 << self.rng.randrange(8)
             self.applied['offset'] = off
             return [bytes(b)]
+        if op == 'setlen':
+            self.applied['offset'] = 0
+            return [int(arg).to_bytes(4, 'big') + data[4:]]
         if op == 'trunc':
             p = {'0': 0, '4': min(4, len(data) - 1), 'half': len(data) // 2,
                  'last': len(data) - 1}[arg]
@@ -316,9 +383,93 @@ class Tamper:
         return out
 
 
-def run_case(case):
+async def _probe_cmd(process):
+    process.stdout.write('PROBE-OK')
+    process.exit(0)
+
+
+def _run_truncation(case):
     mon = {k: 0 for k in REQUIRED}
     viol = []
+    out = {}
+
+    async def main(loop):
+        state = {'nk': False, 'injected': False, 'dropped': False, 'n': 0}
+        d = case['dir']
+
+        def mitm(dd, idx, data):
+            if dd != d or data.startswith(b'SSH-'):
+                return None
+            if not state['nk']:
+                if len(data) > 5 and data[5] == R.MSG_NEWKEYS:
+                    state['nk'] = True
+                    return None
+                state['n'] += 1
+                if state['n'] == 2 and not state['injected']:
+                    state['injected'] = True
+                    body = R.sstr(b'x') if case['op'][1] == 2 else \
+                        b'\x00' + R.sstr(b'dbg') + R.sstr(b'')
+                    return [R.Plain().seal(0, bytes([case['op'][1]]) + body),
+                            data]
+                return None
+            if not state['dropped']:
+                state['dropped'] = True
+                return []
+            return None
+
+        algs = dict(encryption_algs=[case['enc']], mac_algs=[case['mac']],
+                    compression_algs=['none'])
+        async with scen.Env(loop, server_factory=lambda: apps.RecServer(
+                apps.EventLog()), chunking=case['chunk'], seed=case['cseed'],
+                server_opts=dict(process_factory=_probe_cmd, **algs)) as env:
+            env.wire.mitm = mitm
+
+            async def client():
+                conn = await env.connect(**algs)
+                out['connected'] = True
+                res = await conn.run('probe')
+                out['probe'] = res.stdout
+                conn.close()
+
+            ct = asyncio.ensure_future(client())
+            env.san.harness_tasks.add(ct)
+            await env.settle()
+            if not ct.done():
+                if env.wire.links:
+                    env.wire.links[0].cut('both')
+                await env.settle()
+            if not ct.done():
+                ct.cancel()
+            await asyncio.gather(ct, return_exceptions=True)
+            env.san.drain()
+
+    try:
+        scen.run(main)
+    except vloop.QuiescentHang as exc:
+        viol.append({'mechanism': 'hang', 'detail': str(exc)})
+    if 'probe' in out:
+        viol.append({'mechanism': 'prefix_truncation_not_detected',
+                     'detail': f'an unauthenticated record was inserted '
+                               f'before NEWKEYS and the first encrypted '
+                               f'record removed; the session ran on '
+                               f'({out["probe"]!r}); {case["enc"]} '
+                               f'{case["mac"]} dir={case["dir"]}'})
+    mon['tampers_applied'] = 1
+    mon['truncation_cases'] = 1
+    res = {'mon': mon, 'sig': signature(case),
+           'sample': {k: v for k, v in case.items() if k != 'cseed'}}
+    res['verdict'] = 'violated' if viol else 'held'
+    if viol:
+        res['violations'] = viol
+    return res
+
+
+def run_case(case):
+    if case.get('kind') == 'truncation':
+        return _run_truncation(case)
+    mon = {k: 0 for k in REQUIRED}
+    viol = []
+    _MAC_CALLS.update(n=0, short=0, bad=[])
     rng = random.Random(case['cseed'])
     bs = max(8, R.CIPHERS[case['enc'].encode()][3])
     sizes = [1, bs - 5, bs - 1, bs, bs + 1, bs + 5, 3, 200, 64, 17, 1000,
@@ -686,6 +837,12 @@ def run_case(case):
         scen.run(main)
     except vloop.QuiescentHang as exc:
         viol.append({'mechanism': 'hang', 'detail': str(exc)})
+
+    mon['mac_verify_calls'] = _MAC_CALLS['n']
+    mon['mac_odd_length_tags'] = _MAC_CALLS['short']
+    for b in _MAC_CALLS['bad']:
+        viol.append({'mechanism': 'mac_contract_broken',
+                     'detail': f'{b}; {applied}'})
 
     res = {'mon': mon, 'sig': signature(case) if mon['tampers_applied']
            else None,
